@@ -5,6 +5,16 @@ VERIF = os.path.dirname(os.path.dirname(os.path.abspath(__file__)))
 
 # id -> (category, technique, level text, level note, design ref)
 CHECKS = {
+ "C11": ("exploration",
+         "runtime monitoring: totality (panic) and purity monitor for check() on arbitrary and structurally odd models; report-vs-reference-graph monitor on generated consistent modules and all their single-reference corruptions",
+         "check() runs under the crash monitor and a purity cross-check (written text before/after) on grammar-generated documents with arbitrary semantics and on structurally odd modules (6-8 STD_AXIS AXIS_DESCR, duplicate names, no MOD_PAR, empty lists, THIS. in directly used typedefs, everything dangling). Fully consistent modules from the module generator (every reference site of the frozen site table populated) must yield an empty report; each single covered reference replaced by a fresh name must yield a CrossReferenceError naming it and no unrelated cross-reference report. 2 000 / 50 000 modules, a third / all of the references corrupted one at a time; floor: every covered site corrupted at least once.",
+         "trusts: the module generator's notion of consistency (DESIGN.md appendix D) and the frozen covered-site table (appendix A column C)",
+         "DESIGN.md section 3 C11"),
+ "C12": ("exploration",
+         "runtime monitoring: limit-verdict monitor - check() verdict compared with an independent physical-range calculator over a complete grid of host element x data type x conversion x coefficient x limit placement",
+         "For MEASUREMENT, CHARACTERISTIC (FNC_VALUES), AXIS_PTS (AXIS_PTS_X), STD_AXIS AXIS_DESCR and TYPEDEF_MEASUREMENT x the 11 data types x conversions {none, IDENTICAL, TAB_INTP, TAB_NOINTP, TAB_VERB, LINEAR with a,b of both signs over six magnitudes, linear RAT_FUNC with b,c,f grids, general RAT_FUNC, FORM} x limits placed clearly inside / outside-low / outside-high of the range from an independent calculator, a LimitCheckError must be reported exactly for the outside placements of evaluated conversions. The grid (~29 000 cases) is enumerated completely in both tiers; thorough adds 500 000 random coefficient draws.",
+         "trusts: the independent range calculator (raw ranges of the standard's data types; LINEAR a*x+b; RAT_FUNC (f*i-c)/b); 'clearly' = 1 % (10^4 x the documented tolerance)",
+         "DESIGN.md section 3 C12"),
  "C20": ("translation_validation",
          "runtime monitoring: differential transcript monitor - two builds of the crate (shipped generated code vs. fresh macro expansion of the DSL by the in-tree generator) linked into one process, fed the same bytes, transcripts compared",
          "The shipped a2lfile and a variant whose specification module is the macro invocation (specification_orig.rs, expanded by the in-tree a2lmacros; every other module is the same source file through a symlink farm recreated from /repo on every run) are linked into one binary. Every input (systematic per-kind documents with all optional sub-elements at legal and re-declared versions, random grammar documents in wide layouts with inserted unknown elements, hostile inputs; strict and non-strict, fragment entry point) is loaded by both; Ok/Err and error text, every log entry, the Debug view of the model, the written text and the texts after sort(), sort_new_items(), merge_includes() and the check() report must agree. ~44 000 / >2 000 000 transcript pairs.",
